@@ -21,16 +21,20 @@ import (
 	"net/http/httptest"
 	"net/url"
 	"os"
+	"os/exec"
 	"path/filepath"
+	"strconv"
 	"strings"
 	"sync"
 	"sync/atomic"
+	"syscall"
 	"time"
 
 	"github.com/rs/zerolog"
 	"github.com/sassoftware/relic/v8/cmdline/shared"
 	"github.com/sassoftware/relic/v8/config"
 	"github.com/sassoftware/relic/v8/lib/audit"
+	"github.com/sassoftware/relic/v8/lib/certloader"
 	"github.com/sassoftware/relic/v8/lib/verifhook"
 	"github.com/sassoftware/relic/v8/lib/x509tools"
 	"github.com/sassoftware/relic/v8/server"
@@ -43,6 +47,7 @@ import (
 	"github.com/sassoftware/relic/v8/verifapi"
 
 	"verif/harness/internal/certs"
+	"verif/harness/internal/fakep11"
 	"verif/harness/internal/faketoken"
 	"verif/harness/internal/pipelinex"
 	"verif/harness/internal/res"
@@ -106,6 +111,48 @@ type world struct {
 	client   *certs.Cert
 	keys     []keySpec
 	auditLog string
+	k2key    string // (p11 mode) PEM file of the EC key that goes on the second token
+	model    *fakep11.Model
+}
+
+// startTokenModel: two tokens (tok1 with the RSA test key as k1, tok2 with the EC key as k2) behind the wire module
+func (w *world) startTokenModel() {
+	sock := filepath.Join(w.dir, "p11.sock")
+	if len(sock) > 100 {
+		sock = filepath.Join(os.TempDir(), fmt.Sprintf("vh-srv-%d.sock", os.Getpid()))
+	}
+	m, err := fakep11.Start(sock)
+	if err != nil {
+		panic(err)
+	}
+	os.Setenv("FAKEP11_SOCK", sock)
+	m.TagConns = true
+	load := func(path string) crypto.Signer {
+		b, err := os.ReadFile(path)
+		if err != nil {
+			panic(err)
+		}
+		k, err := certloader.ParseAnyPrivateKey(b, nil)
+		if err != nil {
+			panic(err)
+		}
+		return k.(crypto.Signer)
+	}
+	m.AddKeyPair(0, "k1", []byte{1}, load("/repo/functest/testkeys/rsa2048.key"))
+	m.AddKeyPair(1, "k2", []byte{2}, load(w.k2key))
+	m.Arm(fakep11.Knobs{Slots: []fakep11.Slot{{ID: 0, Present: true, Label: "tok1", Serial: "0001"}, {ID: 1, Present: true, Label: "tok2", Serial: "0002"}}, Tries0: 3, RightPin: "123456"})
+	w.model = m
+}
+
+func workerPids() []int {
+	out, _ := exec.Command("pgrep", "-P", strconv.Itoa(os.Getpid())).Output()
+	var pids []int
+	for _, f := range strings.Fields(string(out)) {
+		if p, err := strconv.Atoi(f); err == nil {
+			pids = append(pids, p)
+		}
+	}
+	return pids
 }
 
 const pkgs = "/repo/functest/packages/"
@@ -124,12 +171,33 @@ func writeECKey(dir string) (keyPath, certPath, certPEM string) {
 }
 
 // auditKind: "ok" | "none" | "missingdir" | "isdir" | "devfull"; amqp: "" | "refused"
+// p11Mode: the tokens are PKCS#11 tokens behind the wire module: the server spawns real worker processes (this
+// binary re-executed as `worker`) that talk to the harness-owned token model
+var p11Mode bool
+
+func p11Provider() string {
+	if so := os.Getenv("VERIF_P11_SO"); so != "" {
+		return so
+	}
+	return "/verif/build/libfakep11.so"
+}
+
 func buildWorld(dir, auditKind, amqp string, cacheSeconds int, rateLimit float64, listenHTTP string) *world {
 	w := &world{dir: dir}
 	w.client = certs.New(certs.Opt{CN: "verif client", EKU: []x509.ExtKeyUsage{x509.ExtKeyUsageClientAuth}}, nil)
 	k2key, k2crt, k2pem := writeECKey(dir)
 	rsaPEM, _ := os.ReadFile("/repo/functest/testkeys/rsa2048.crt")
 	var sb strings.Builder
+	if p11Mode {
+		w.k2key = k2key
+		fmt.Fprintf(&sb, "tokens:\n  t1:\n    type: pkcs11\n    provider: %s\n    label: tok1\n    pin: \"123456\"\n    retries: 6\n    timeout: 30\n", p11Provider())
+		fmt.Fprintf(&sb, "  t2:\n    type: pkcs11\n    provider: %s\n    label: tok2\n    pin: \"123456\"\n    retries: 6\n    timeout: 30\n", p11Provider())
+		sb.WriteString("keys:\n")
+		sb.WriteString("  k1:\n    token: t1\n    label: k1\n    pgpcertificate: /repo/functest/testkeys/rsa2048.pgp\n    x509certificate: /repo/functest/testkeys/rsa2048.crt\n    roles: [r1]\n")
+		fmt.Fprintf(&sb, "  k2:\n    token: t2\n    label: k2\n    x509certificate: %s\n    roles: [r1]\n", k2crt)
+		sb.WriteString("  alias1:\n    alias: k1\n")
+		sb.WriteString("  hidden:\n    token: t1\n    label: k1\n    x509certificate: /repo/functest/testkeys/rsa2048.crt\n    roles: [r1]\n    hide: true\n")
+	} else {
 	fmt.Fprintf(&sb, "tokens:\n  t1:\n    type: %s\n", faketoken.Type)
 	if rateLimit > 0 {
 		fmt.Fprintf(&sb, "    ratelimit: %g\n    rateburst: 4\n", rateLimit)
@@ -140,6 +208,7 @@ func buildWorld(dir, auditKind, amqp string, cacheSeconds int, rateLimit float64
 	fmt.Fprintf(&sb, "  k2:\n    token: t2\n    keyfile: %s\n    x509certificate: %s\n    roles: [r1]\n", k2key, k2crt)
 	sb.WriteString("  alias1:\n    alias: k1\n")
 	sb.WriteString("  hidden:\n    token: t1\n    keyfile: /repo/functest/testkeys/rsa2048.key\n    x509certificate: /repo/functest/testkeys/rsa2048.crt\n    roles: [r1]\n    hide: true\n")
+	}
 	switch auditKind {
 	case "ok":
 		w.auditLog = filepath.Join(dir, "audit.log")
@@ -161,6 +230,9 @@ func buildWorld(dir, auditKind, amqp string, cacheSeconds int, rateLimit float64
 		fmt.Fprintf(&sb, "amqp:\n  url: amqp://guest:guest@%s/\n", addr)
 	}
 	fmt.Fprintf(&sb, "server:\n  listen: \"\"\n  listenhttp: %q\n  tokencheckinterval: 3600\n  tokencacheseconds: %d\n  trustedproxies: [\"127.0.0.1\"]\n", listenHTTP, cacheSeconds)
+	if p11Mode {
+		sb.WriteString("  numworkers: 2\n  loglevel: error\n")
+	}
 	fmt.Fprintf(&sb, "clients:\n  %s:\n    nickname: verifclient\n    roles: [r1]\n", w.client.Fingerprint())
 	w.cfgPath = filepath.Join(dir, "relic.yml")
 	if err := os.WriteFile(w.cfgPath, []byte(sb.String()), 0600); err != nil {
@@ -460,7 +532,10 @@ func Main(args []string) {
 	workdir := fs.String("dir", "", "working directory (default: fresh temp dir)")
 	mixOther := fs.Bool("mix", false, "mix in list_keys/keys/health requests")
 	raw := fs.Bool("raw", false, "only pe-coff with the default transform: no client-side use of relic's flag machinery")
+	p11 := fs.Bool("p11", false, "PKCS#11 tokens behind the wire module: real worker processes")
+	faults := fs.Bool("faults", false, "(p11) a fatal token error after a third of the requests, kill -9 of a worker after two thirds")
 	fs.Parse(args)
+	p11Mode = *p11
 	rawMode = *raw
 	zerolog.SetGlobalLevel(zerolog.Disabled)
 	r := res.New()
@@ -487,6 +562,10 @@ func Main(args []string) {
 		panic(err)
 	}
 	shared.CurrentConfig = cfg
+	if p11Mode {
+		w.startTokenModel()
+		defer func() { w.model.Stop(); os.Remove(w.model.Path) }()
+	}
 	rec := &recorder{}
 	verifhook.SetSink(rec.sink)
 	faketoken.Reset()
@@ -579,6 +658,23 @@ func Main(args []string) {
 				}
 			}
 		}(c)
+	}
+	if p11Mode && *faults {
+		go func() {
+			third := int64(*n / 3)
+			for atomic.LoadInt64(&okCount) < third {
+				time.Sleep(5 * time.Millisecond)
+			}
+			w.model.SetFail("Sign+1", "DEVICE_REMOVED") // the next signature meets a fatal token error
+			r.Count("fault_device_removed", 1)
+			for atomic.LoadInt64(&okCount) < 2*third {
+				time.Sleep(5 * time.Millisecond)
+			}
+			if pids := workerPids(); len(pids) > 0 {
+				syscall.Kill(pids[0], syscall.SIGKILL)
+				r.Count("fault_worker_killed", 1)
+			}
+		}()
 	}
 	if *shutdown {
 		// close at a seeded moment while requests are in flight
@@ -720,6 +816,34 @@ func Main(args []string) {
 		}
 		ch.Close()
 		fh.Close()
+	}
+	if p11Mode {
+		// nothing may be lost to the injected faults: the retry client and the worker replacement must hide them
+		if failCount != 0 {
+			r.Fail(map[string]string{"engine": "signsrv", "kind": "p11-request-failed"}, nil, "%d of %d requests failed on worker-backed tokens (fatal token error / killed worker must be survived by retries)", failCount, *n)
+		}
+		ok := false
+		for i := 0; i < 500 && !ok; i++ {
+			ok = len(workerPids()) == 0
+			time.Sleep(10 * time.Millisecond)
+		}
+		if !ok {
+			r.Fail(map[string]string{"engine": "signsrv", "kind": "p11-workers-left"}, nil, "worker processes still alive after the server closed: %v", workerPids())
+			for _, p := range workerPids() {
+				syscall.Kill(p, syscall.SIGKILL)
+			}
+		}
+		logins, opens := 0, 0
+		for _, e := range w.model.Transcript() {
+			if e.Fn == "Login" && e.RV == "OK" {
+				logins++
+			}
+			if e.Fn == "ConnOpen" {
+				opens++
+			}
+		}
+		r.Extra["worker_processes"] = opens
+		r.Extra["worker_logins"] = logins
 	}
 	r.Extra["ok"] = okCount
 	r.Extra["failed"] = failCount
